@@ -148,7 +148,7 @@ class Decoder24b(Decoder):
         #   - RLE encoded Blue channel for 1 row
         #   - RLE encoded Green channel for 1 row
         #   - RLE encoded Red channel for 1 row
-        w_size = (bmp_width - bmp_padding_w) * 2
+        w_size = (bmp_width - bmp_padding_w) * 4
         
     
         if len(fdata) == w_size*(bmp_height-bmp_padding_h):
